@@ -109,6 +109,8 @@ def run(ctx):
     ctx.level = 'exploration'
     ctx.cov_add(traces_validated_against_impl=len(recs) - nbad, evaluations=len(recs), attacks=natt, scripts=len(recs) - natt,
                 behaviours_replayed=len(recs) - natt, distinct_nontrivial=len(recs), exhaustive=not ctx.quick,
+                max_tenths_of_second=max(r_['obs']['seconds10'] for r_ in recs if r_['what'] == 'attack'),
+                max_resident_growth_mb=max(r_['obs']['mb'] for r_ in recs if r_['what'] == 'attack'),
                 detector_positive_controls=sum(1 for r_ in recs if r_['what'] == 'script' and r_['obs']['succeeded']),
                 rule='attacks are distinct members of SpyneXmlAttack.Attacks; scripts are distinct (construction order, served instance, attack) tuples')
     ctx.sample({'attack': recs[0]['a'], 'request': recs[0]['info']['request'][:300], 'observation': recs[0]['obs']})
